@@ -18,6 +18,7 @@ package main
 //     and reference semantics evaluated on the same programs).
 
 import (
+	"sync"
 	"crypto/sha1"
 	"encoding/json"
 	"flag"
@@ -689,6 +690,111 @@ func runC09() {
 						Input: map[string]interface{}{"src": src, "reused_vm_run": k + 1}, Want: first, Got: clip(got), Replay: `{"what": "reused-vm-repeat"}`})
 					break
 				}
+			}
+		}
+	}
+
+	// ---- (6) SEVERAL programs interleaved on one reused vm.VM over one environment value: the result of a program is a function of
+	//      (program, environment) - not of which other programs the machine ran in between (their constant pools, member
+	//      names and call sites are numbered independently)
+	{
+		env := baseEnv()
+		srcs := []string{"S", "S2", "I", "I8", "St.X", "St.Y", "P?.X", "S + S2", "I + I8", "Inc(I)", "Add(I, I8 > 0 ? 1 : 2)", "[S, I]", "{a: S2, b: I}", "St.Get()", "len(AI) + I", "AI[0]", "MI.a", "Any"}
+		type prog struct {
+			src   string
+			p     *vm.Program
+			first string
+		}
+		var ps []prog
+		for _, src := range srcs {
+			p, err := expr.Compile(src, expr.Env(env))
+			if err != nil {
+				continue
+			}
+			out, rerr := vm.Run(p, env)
+			ps = append(ps, prog{src, p, fmt.Sprintf("%#v / %v", out, rerr)})
+		}
+		machine := &vm.VM{}
+		for k := 0; k < 4*len(ps) && len(ps) > 0; k++ {
+			x := ps[(k*5+k/len(ps))%len(ps)]
+			rep.Evaluations++
+			rep.hist("several programs interleaved on one VM")
+			out, rerr := func() (o interface{}, e error) {
+				defer func() {
+					if r := recover(); r != nil {
+						e = fmt.Errorf("panic: %v", r)
+					}
+				}()
+				return machine.Run(x.p, env)
+			}()
+			if got := fmt.Sprintf("%#v / %v", out, rerr); got != x.first {
+				rep.fail(Failure{Key: "C09-run-nondeterministic", What: "a program run on a vm.VM that ran OTHER programs over the same environment before returns another result than its run on a fresh VM",
+					Input: map[string]interface{}{"src": x.src, "step": k + 1, "programs": srcs}, Want: x.first, Got: clip(got), Replay: `{"what": "reused-vm-interleaved"}`})
+				break
+			}
+		}
+	}
+
+	// ---- (7) the same (source, options) compiled while OTHER compilations are in flight: identical constants and bytecode as
+	//      the sequential compilation (string literals with escapes, long literals, numbers, identifiers: everything the front
+	//      end builds in working buffers)
+	{
+		env := baseEnv()
+		var srcs, want []string
+		for g := 0; g < 8; g++ {
+			var b strings.Builder
+			for i := 0; i < 160; i++ {
+				fmt.Fprintf(&b, "\\t%c%d\\n\\u00e9\\\\", 'a'+g, i)
+			}
+			lit := b.String()
+			srcs = append(srcs, fmt.Sprintf(`S + "%s" + '%s' + "plain%d" + S2`, lit, strings.ReplaceAll(lit, "\\u00e9", "\\x41"), g),
+				fmt.Sprintf(`[%d.5e2, 0x%x, %d, "\\x4%d\\"q\\""][I - I] == "%s"`, g+1, 255+g, 1000+g, g, lit[:40]))
+		}
+		digest := func(p *vm.Program) string { return fmt.Sprintf("%v|%#v", p.Bytecode, p.Constants) }
+		ok := true
+		for _, src := range srcs {
+			p, err := expr.Compile(src, expr.Env(env))
+			if err != nil {
+				ok = false
+				rep.hist("concurrent-compile source rejected: " + firstWords(err.Error()))
+				break
+			}
+			want = append(want, digest(p))
+		}
+		if ok {
+			var wg sync.WaitGroup
+			var mu sync.Mutex
+			bad := ""
+			for g := range srcs {
+				wg.Add(1)
+				go func(g int) {
+					defer wg.Done()
+					for it := 0; it < 150; it++ {
+						p, err := expr.Compile(srcs[g], expr.Env(env))
+						got := ""
+						if err != nil {
+							got = "error: " + err.Error()
+						} else {
+							got = digest(p)
+						}
+						if got != want[g] {
+							mu.Lock()
+							if bad == "" {
+								bad = fmt.Sprintf("source %d, iteration %d: %s", g, it, clip(got))
+							}
+							mu.Unlock()
+							return
+						}
+					}
+				}(g)
+			}
+			wg.Wait()
+			rep.Evaluations += 150 * len(srcs)
+			rep.hist("compilations while other compilations are in flight")
+			if bad != "" {
+				rep.fail(Failure{Key: "C09-compile-nondeterministic", What: "a source compiled while other compilations are in flight gives another program than its sequential compilation",
+					Input: map[string]interface{}{"sources": "16 sources with ~2 KB escaped string literals / numeric literals, 16 goroutines x 150 compilations", "first": clip(srcs[0])},
+					Want:  "the program of the sequential compilation", Got: bad, Replay: `{"what": "concurrent-compile"}`})
 			}
 		}
 	}
